@@ -36,7 +36,6 @@ def shrink(P, lines, still_fails, budget=400):
 def run_property(P, tier, seed, replay=None):
     t0 = time.time()
     pid = P.PID
-    fam = P.FAM
     lines_out = []          # stdout lines (VIOLATION / KNOWN-FINDING)
     violations = 0
     notes = []
@@ -59,89 +58,13 @@ def run_property(P, tier, seed, replay=None):
     if replay:
         return _replay(P, replay)
 
-    # ---- 3. correspondence
+    # ---- 3-7. correspondence, monitors, cross-check: once per part (a property may use several families)
+    parts = getattr(P, "PARTS", None) or [P]
     rng = random.Random(seed)
-    cases = P.generate(rng, tier)
-    model_out = C.run_sharded(C.MODEL_RUN, fam, cases, pid + "_m")
-    impl_out = C.run_sharded(C.KDB_RUN, fam, cases, pid + "_i", extra_env=env)
-    by_id = {str(cid): lines for cid, lines in cases}
-    same = getattr(P, "compare", lambda ls, m, i: m == i)
-    diffs = [cid for cid in by_id if not same(by_id[cid], model_out.get(cid), impl_out.get(cid))]
-    # ---- 4. property monitor on every implementation trace
-    fails = []
-    for cid, lines in by_id.items():
-        for msg in P.monitor(lines, impl_out.get(cid, [])):
-            fails.append((cid, msg))
-    # ---- 5. extraction cross-check inside Coq
-    k = max(3, len(cases) // 100) if tier == "quick" else max(10, len(cases) // 400)
-    sample = rng.sample(cases, min(k, len(cases), getattr(P, "CROSS_MAX", 40)))
-    ok, xout = C.coq_crosscheck(fam, sample, model_out, pid)
-    if not ok:
-        coq["problems"].append("vm_compute cross-check of the extracted model failed: " + xout)
-
-    known = [f for f in C.load_known() if f.get("property") == pid and f.get("kind") == "known"]
-    seen_known = {}
-    reported = set()
-    # ---- 6. monitor failures
-    for cid, msg in fails:
-        kf = P.classify(by_id[cid], impl_out.get(cid, []), msg, known) if hasattr(P, "classify") else None
-        if kf is not None:
-            seen_known.setdefault(kf["id"], (kf, cid, msg))
-            continue
-        key = msg.split(":")[0]
-        if key in reported:
-            continue
-        reported.add(key)
-
-        def still(ls, msg=msg):
-            o = _one(C.KDB_RUN, fam, ls, pid + "_s", env)
-            return any(m.split(":")[0] == msg.split(":")[0] for m in P.monitor(ls, o))
-        small = shrink(P, by_id[cid], still)
-        o = _one(C.KDB_RUN, fam, small, pid + "_s", env)
-        rp = C.write_replay(pid, "v%d" % violations, {
-            "property": pid, "kind": "monitor", "family": fam, "case": small,
-            "readable": P.pretty(small), "impl_trace": o,
-            "model_trace": _one(C.MODEL_RUN, fam, small, pid + "_s"),
-            "failed_clause": P.monitor(small, o)})
-        print("VIOLATION property=%s replay=%s" % (pid, rp))
-        violations += 1
-    for fid, (kf, cid, msg) in sorted(seen_known.items()):
-        print("KNOWN-FINDING: property=%s %s [%s]" % (pid, kf["what"], fid))
-    # ---- 7. correspondence differences not explained by a monitor failure
-    failing_ids = {cid for cid, _ in fails}
-    unexplained = [c for c in diffs if c not in failing_ids]
-    if unexplained:
-        cid = unexplained[0]
-
-        def differs(ls):
-            return not same(ls, _one(C.MODEL_RUN, fam, ls, pid + "_s"), _one(C.KDB_RUN, fam, ls, pid + "_s", env))
-        small = shrink(P, by_id[cid], differs)
-        # search the neighbourhood of the differing case for a concrete property failure
-        found = None
-        if hasattr(P, "neighbours"):
-            for nb in P.neighbours(small, rng):
-                o = _one(C.KDB_RUN, fam, nb, pid + "_s", env)
-                ms = P.monitor(nb, o)
-                if ms:
-                    found = (nb, o, ms)
-                    break
-        if found:
-            nb, o, ms = found
-            rp = C.write_replay(pid, "v%d" % violations, {
-                "property": pid, "kind": "monitor", "family": fam, "case": nb,
-                "readable": P.pretty(nb), "impl_trace": o, "failed_clause": ms})
-            print("VIOLATION property=%s replay=%s" % (pid, rp))
-        else:
-            rp = C.write_replay(pid, "k%d" % violations, {
-                "property": pid, "kind": "correspondence", "family": fam, "case": small,
-                "readable": P.pretty(small),
-                "broken": "K(%s): model and implementation differ on this case (%d of %d cases differ); "
-                          "theorems %s are about a model that no longer predicts the code"
-                          % (pid, len(unexplained), len(cases), ", ".join(coq["theorems"])),
-                "impl_trace": _one(C.KDB_RUN, fam, small, pid + "_s", env),
-                "model_trace": _one(C.MODEL_RUN, fam, small, pid + "_s")})
-            print("VIOLATION property=%s replay=%s no-failing-input-found" % (pid, rp))
-        violations += 1
+    agg = {"cases": 0, "distinct": set(), "hist": {}, "samples": [], "diffs": 0, "fails": 0, "known": set(),
+           "cross": 0}
+    for part in parts:
+        violations += _run_part(P, part, tier, seed, rng, coq, agg)
     # ---- 8. broken obligations
     if coq["problems"] or coq["discharged"] != coq["obligations"]:
         rp = C.write_replay(pid, "proof", {
@@ -157,24 +80,119 @@ def run_property(P, tier, seed, replay=None):
         v, post_extra = P.post(tier, seed)
         violations += v
     # ---- 9. evidence
-    distinct = set()
-    hist = {}
-    for cid, lines in by_id.items():
-        key = P.nontrivial(lines, impl_out.get(cid, []))
-        if key is not None:
-            distinct.add(key)
-        for h in P.histogram(lines, impl_out.get(cid, [])):
-            hist[h] = hist.get(h, 0) + 1
-    samples = [{"case": P.pretty(l), "model": model_out.get(str(c)), "impl": impl_out.get(str(c))}
-               for c, l in cases[:: max(1, len(cases) // 4)][:4]]
-    extra = {"correspondence_differences": len(diffs), "monitor_failures": len(fails),
-             "known_findings_seen": sorted(seen_known), "histogram": hist,
-             "coq_crosschecked_cases": len(sample)}
+    extra = {"correspondence_differences": agg["diffs"], "monitor_failures": agg["fails"],
+             "known_findings_seen": sorted(agg["known"]), "histogram": agg["hist"],
+             "coq_crosschecked_cases": agg["cross"]}
     if hasattr(P, "extra_evidence"):
         extra.update(P.extra_evidence(tier))
     extra.update(post_extra)
-    _evidence(P, tier, seed, coq, t0, len(cases), len(distinct), samples, extra, violations, notes)
+    _evidence(P, tier, seed, coq, t0, agg["cases"], len(agg["distinct"]), agg["samples"], extra, violations, notes)
     return 1 if violations else 0
+
+
+
+def _run_part(P, part, tier, seed, rng, coq, agg):
+    """correspondence + monitors + in-Coq cross-check for one family of a property"""
+    pid = P.PID
+    fam = part.FAM
+    env = getattr(part, "ENV", None)
+    violations = 0
+    cases = part.generate(rng, tier)
+    model_out = C.run_sharded(C.MODEL_RUN, fam, cases, pid + "_m")
+    impl_out = C.run_sharded(C.KDB_RUN, fam, cases, pid + "_i", extra_env=env)
+    by_id = {str(cid): lines for cid, lines in cases}
+    same = getattr(part, "compare", lambda ls, m, i: m == i)
+    diffs = [cid for cid in by_id if not same(by_id[cid], model_out.get(cid), impl_out.get(cid))]
+    # ---- 4. property monitor on every implementation trace
+    fails = []
+    for cid, lines in by_id.items():
+        for msg in part.monitor(lines, impl_out.get(cid, [])):
+            fails.append((cid, msg))
+    # ---- 5. extraction cross-check inside Coq
+    k = max(3, len(cases) // 100) if tier == "quick" else max(10, len(cases) // 400)
+    sample = rng.sample(cases, min(k, len(cases), getattr(part, "CROSS_MAX", 40)))
+    ok, xout = C.coq_crosscheck(fam, sample, model_out, pid)
+    if not ok:
+        coq["problems"].append("vm_compute cross-check of the extracted model failed: " + xout)
+
+    known = [f for f in C.load_known() if f.get("property") == pid and f.get("kind") == "known"]
+    seen_known = {}
+    reported = set()
+    # ---- 6. monitor failures
+    for cid, msg in fails:
+        kf = part.classify(by_id[cid], impl_out.get(cid, []), msg, known) if hasattr(part, "classify") else None
+        if kf is not None:
+            seen_known.setdefault(kf["id"], (kf, cid, msg))
+            continue
+        key = msg.split(":")[0]
+        if key in reported:
+            continue
+        reported.add(key)
+
+        def still(ls, msg=msg):
+            o = _one(C.KDB_RUN, fam, ls, pid + "_s", env)
+            return any(m.split(":")[0] == msg.split(":")[0] for m in part.monitor(ls, o))
+        small = shrink(part, by_id[cid], still)
+        o = _one(C.KDB_RUN, fam, small, pid + "_s", env)
+        rp = C.write_replay(pid, "v%d" % violations, {
+            "property": pid, "kind": "monitor", "family": fam, "case": small,
+            "readable": part.pretty(small), "impl_trace": o,
+            "model_trace": _one(C.MODEL_RUN, fam, small, pid + "_s"),
+            "failed_clause": part.monitor(small, o)})
+        print("VIOLATION property=%s replay=%s" % (pid, rp))
+        violations += 1
+    for fid, (kf, cid, msg) in sorted(seen_known.items()):
+        print("KNOWN-FINDING: property=%s %s [%s]" % (pid, kf["what"], fid))
+    # ---- 7. correspondence differences not explained by a monitor failure
+    failing_ids = {cid for cid, _ in fails}
+    unexplained = [c for c in diffs if c not in failing_ids]
+    if unexplained:
+        cid = unexplained[0]
+
+        def differs(ls):
+            return not same(ls, _one(C.MODEL_RUN, fam, ls, pid + "_s"), _one(C.KDB_RUN, fam, ls, pid + "_s", env))
+        small = shrink(part, by_id[cid], differs)
+        # search the neighbourhood of the differing case for a concrete property failure
+        found = None
+        if hasattr(part, "neighbours"):
+            for nb in part.neighbours(small, rng):
+                o = _one(C.KDB_RUN, fam, nb, pid + "_s", env)
+                ms = part.monitor(nb, o)
+                if ms:
+                    found = (nb, o, ms)
+                    break
+        if found:
+            nb, o, ms = found
+            rp = C.write_replay(pid, "v%d" % violations, {
+                "property": pid, "kind": "monitor", "family": fam, "case": nb,
+                "readable": part.pretty(nb), "impl_trace": o, "failed_clause": ms})
+            print("VIOLATION property=%s replay=%s" % (pid, rp))
+        else:
+            rp = C.write_replay(pid, "k%d" % violations, {
+                "property": pid, "kind": "correspondence", "family": fam, "case": small,
+                "readable": part.pretty(small),
+                "broken": "K(%s): model and implementation differ on this case (%d of %d cases differ); "
+                          "theorems %s are about a model that no longer predicts the code"
+                          % (pid, len(unexplained), len(cases), ", ".join(coq["theorems"])),
+                "impl_trace": _one(C.KDB_RUN, fam, small, pid + "_s", env),
+                "model_trace": _one(C.MODEL_RUN, fam, small, pid + "_s")})
+            print("VIOLATION property=%s replay=%s no-failing-input-found" % (pid, rp))
+        violations += 1
+    # ---- per-part evidence
+    for cid, lines in by_id.items():
+        key = part.nontrivial(lines, impl_out.get(cid, []))
+        if key is not None:
+            agg["distinct"].add((fam, key))
+        for h in part.histogram(lines, impl_out.get(cid, [])):
+            agg["hist"][h] = agg["hist"].get(h, 0) + 1
+    agg["samples"] += [{"family": fam, "case": part.pretty(l), "model": model_out.get(str(c)), "impl": impl_out.get(str(c))}
+                       for c, l in cases[:: max(1, len(cases) // 3)][:3]]
+    agg["cases"] += len(cases)
+    agg["diffs"] += len(diffs)
+    agg["fails"] += len(fails)
+    agg["known"] |= set(seen_known)
+    agg["cross"] += len(sample)
+    return violations
 
 
 def _evidence(P, tier, seed, coq, t0, n, distinct, samples, extra, violations, notes):
@@ -207,8 +225,11 @@ def _replay(P, path):
         print("replay file names a broken obligation/correspondence without an input: %s" % r.get("broken"))
         return 0
     lines = r["case"]
-    o = _one(C.KDB_RUN, P.FAM, lines, pid + "_r", getattr(P, "ENV", None))
-    m = _one(C.MODEL_RUN, P.FAM, lines, pid + "_r")
+    parts = getattr(P, "PARTS", None) or [P]
+    part = next((x for x in parts if x.FAM == r.get("family")), parts[0])
+    o = _one(C.KDB_RUN, part.FAM, lines, pid + "_r", getattr(part, "ENV", None))
+    m = _one(C.MODEL_RUN, part.FAM, lines, pid + "_r")
+    P = part
     ms = P.monitor(lines, o)
     print("case:", P.pretty(lines))
     print("impl :", o)
